@@ -136,6 +136,8 @@ class Calls(Interp):
             if isinstance(c, ClassInfo) and mattr in c.assigns and mattr not in self.instance_fields(ci):
                 return self.class_data(c, mattr, node)
         tag = self.reg.field_tag([c.name for c in ci.mro if isinstance(c, ClassInfo)], mattr)
+        if self.current_contract is not None and mattr in self.current_contract.field_tags:
+            tag = self.current_contract.field_tags[mattr]
         if tag is None and isinstance(k, str):
             lib = self.lib_contract(k, mattr)
             if lib is not None:
@@ -155,6 +157,8 @@ class Calls(Interp):
         return out
 
     def read_field(self, ref, attr, tag, node, default=None):
+        if tag is not None and tag.startswith("static:"):
+            return self.static_field(ref, attr, tag[7:], node)
         t = self.get_field(ref, attr)
         maybe = False
         if tag is not None and tag.startswith("maybe "):
@@ -173,6 +177,34 @@ class Calls(Interp):
             if not self.branch(t != Val.absent, "attr %s present" % attr):
                 self.raise_builtin("AttributeError", node)
         return self.from_term(t, tag)
+
+    def static_field(self, ref, attr, where, node):
+        """field holding a dispatch table built once by `self.<attr> = {...}` in <Class>.<method> (and written nowhere else:
+        checked by the frame scan): evaluated from that source with self bound to the object"""
+        cname, mname = where.split(".")
+        ci = self.repo.find_class(cname)
+        fn = ci.methods[mname]
+        rhs = None
+        for n in ast.walk(fn):
+            if isinstance(n, ast.Assign) and len(n.targets) == 1 and isinstance(n.targets[0], ast.Attribute) \
+                    and n.targets[0].attr == attr and isinstance(n.targets[0].value, ast.Name) and n.targets[0].value.id == "self":
+                rhs = n.value
+        if rhs is None:
+            self.unsupported(node, "static field %s not assigned in %s" % (attr, where))
+        objtag = None
+        for fr in reversed(self.st.frames):
+            sv = fr.locals.get("self")
+            if isinstance(sv, SV) and z3.simplify(Val.r(sv.term) == ref).eq(z3.BoolVal(True)):
+                objtag = sv.ty
+                break
+        self.spec_envs.append({"self": SV(Val.ref(ref), objtag or cname)})
+        saved = self.spec_cls
+        self.spec_cls = ci
+        try:
+            return self.eval_const(rhs, ci.module, node)
+        finally:
+            self.spec_cls = saved
+            self.spec_envs.pop()
 
     def class_data(self, c, attr, node):
         key = (c.qual, attr)
@@ -519,7 +551,8 @@ class Calls(Interp):
                 m = z3.Store(m, so.strv(k), self.to_term(v, node))
             d = self.new_dict(m)
             if dmap is None:
-                d.static_keys = dict(kwargs)
+                # **kwargs built from explicit keywords only: its items are statically known
+                self.static_dicts[z3.simplify(d.term).get_id()] = (dict(kwargs), d.term)
             locs[a.kwarg.arg] = d
         elif kwargs:
             self.raise_builtin("TypeError", node)
@@ -999,6 +1032,11 @@ class Calls(Interp):
     # ---- builtin methods ---------------------------------------------------
     def builtin_method(self, kind, name, recv, args, kwargs, node):
         m = getattr(self, "bm_%s_%s" % (kind if kind not in ("frozenset", "anyset") else "set", name), None)
+        if m is None and kind in ("str", "bytes"):
+            # a str/bytes method without a model: an uninterpreted total function of receiver and arguments
+            # (immutable receiver, no side effect); nothing about its value can be proved
+            seq = so.seq_of([recv.term] + [self.to_term(a, node) for a in args])
+            return SV(opaque_method(z3.StringVal("%s.%s" % (kind, name)), seq), None)
         if m is None:
             self.unsupported(node, "method %s.%s" % (kind, name))
         return m(recv, args, kwargs, node)
@@ -1094,7 +1132,6 @@ class Calls(Interp):
         t = m[self.to_term(args[0], node)]
         d = args[1] if len(args) > 1 else SV(Val.none, "none")
         vt = self.dict_value_tag(recv, args[0])
-        sk = getattr(recv, "static_keys", None)
         if self.spec_mode:
             return self.ite(t != Val.absent, self.from_term(t, vt), d, node)
         if self.branch(t != Val.absent, "dict.get present L%d" % getattr(node, "lineno", 0)):
@@ -1145,6 +1182,9 @@ class Calls(Interp):
         return args[1]
 
     def bm_dict_items(self, recv, args, kwargs, node):
+        st = self.static_dicts.get(z3.simplify(recv.term).get_id()) if isinstance(recv, SV) else None
+        if st is not None:
+            return TupV([TupV([SV(so.strv(k), "str"), v]) for k, v in st[0].items()])
         return ItemsV(recv, "items")
 
     def bm_dict_keys(self, recv, args, kwargs, node):
@@ -1742,6 +1782,9 @@ def deliver_axioms():
                   deliver(H, s_, e, i + 1) == z3.Store(prev, r, Hist.snoc(prev[r], e))),
                   patterns=[deliver(H, s_, e, i + 1)]),
     ]
+
+
+opaque_method = z3.Function("opaque_method", S, SeqV, Val)
 
 
 def set_card(m):
